@@ -141,6 +141,18 @@ def run(chk):
     except (AnalysisError, SymbolicBranch) as e:
         chk.undecided.append(f"R1v: _union_impl could not be interpreted ({str(e)[:140]})")
 
+    try:
+        from .. import pipesim as _ps14
+        from .c17 import m_types_env as _mte14
+
+        res_i = _ps14.ingress_scenarios(_ps14.RealWorld(repo, _mte14(_mo1(chk))))
+        for tag, desc, ok_, detail in res_i:
+            if tag in ("unknown", "foreign"):
+                chk.ob("R1v", repo.mod("pipe.verbs"), repo.mod("pipe.verbs").func("preprocess_arg"), f"preprocess_arg interpreted: {desc}", ok_, detail)
+        decided_iids |= {"ref-unknown"}
+    except (AnalysisError, SymbolicBranch, KeyError) as e:
+        chk.undecided.append(f"R1v: preprocess_arg could not be interpreted ({str(e)[:140]})")
+
     # ---- R1
     for iid, short, fq, exc, needles, what in INSTANCES:
         if table_decided and iid in ("table-getattr", "table-getitem"):
